@@ -135,10 +135,15 @@ TouchesR(s, x) == x \in s.r \cup s.w \cup s.c
 WritesR(s, x)  == x \in s.w \cup s.c
 MemConflict(a, b) == \E x \in a.r \cup a.w \cup a.c : TouchesR(b, x) /\ (WritesR(a, x) \/ WritesR(b, x))
 MemEdges(Es) == {e \in Es : e.l \in MemLabels}
-ConflictsOrderedOf(P, T, Es) ==
-    LET Ms == MemEdges(Es) IN
-    \A i, j \in Nodes(P, T) : (i < j /\ MemConflict(Sum(P, T, i), Sum(P, T, j)))
-                                 => j \in FwdReach({i}, Ms, Len(P) + 2)
+\* OrderedThrough: every conflicting pair i < j is ordered through the edges Ds
+OrderedThrough(P, T, Ds) ==
+    \A i \in Nodes(P, T) :
+        LET later == {j \in Nodes(P, T) : i < j /\ MemConflict(Sum(P, T, i), Sum(P, T, j))} IN
+        later # {} => later \subseteq FwdReach({i}, Ds, Len(P) + 2)
+\* in the model: already through the memory edges alone (what the queue construction guarantees) ...
+ConflictsOrderedOf(P, T, Es) == OrderedThrough(P, T, MemEdges(Es))
+\* ... the statement itself only asks for a dependency path of any kind (used to judge real graphs)
+ConflictsOrderedAnyOf(P, T, Es) == OrderedThrough(P, T, Es)
 \* an edge AwaitMemoryAccess(t) from a to b: on some region, a performs an access of type t and b conflicts
 \* with it (a read is only awaited by a write or capture)
 MemEdgeJustified(a, b, t) ==
@@ -161,9 +166,11 @@ StableEdges(Es) == {e \in Es : e.l = "Stable"}
 SchedEdges(Es)  == {e \in Es : e.l = "Sched"}
 FrameOrderedOf(P, Es) ==
     LET Ss == StableEdges(Es)  Ts == SchedEdges(Es) IN
-    \A i, j \in 1..Len(P) : (i < j /\ IsRF(P, i) /\ IsRF(P, j) /\ FrConflict(P[i], P[j])) =>
-        /\ j \in FwdReach({i}, Ss, Len(P))
-        /\ (P[i].timed /\ P[j].timed) => j \in FwdReach({i}, Ts, Len(P))
+    \A i \in {i \in 1..Len(P) : IsRF(P, i)} :
+        LET later  == {j \in 1..Len(P) : i < j /\ IsRF(P, j) /\ FrConflict(P[i], P[j])}
+            tlater == {j \in later : P[i].timed /\ P[j].timed}
+        IN /\ (later # {} => later \subseteq FwdReach({i}, Ss, Len(P)))
+           /\ (tlater # {} => tlater \subseteq FwdReach({i}, Ts, Len(P)))
 FrameEdgesJustifiedOf(P, Es) ==
     \A e \in StableEdges(Es) \cup SchedEdges(Es) :
         \/ e.from = START \/ e.to = END
